@@ -428,6 +428,18 @@ def main(argv=None):
         rec["cmd"] = ".venv/bin/python -m pyvc.check %s --replay %s" % (prop, path)
         with open(os.path.join(OUT, path), "w") as f:
             json.dump(rec, f, indent=1, default=repr)
+        if ("contract_index" in v and not v.get("bounded") and "replay_error" not in rec
+                and rec.get("violated_clauses") == [] and ("/ensures/" in v["obligation"] or "/raises/" in v["obligation"])):
+            # The solver's counterexample was run on the real code and every clause of the contract holds for it: the
+            # "counterexample" is an artefact of an over-approximation (the havoc of an inductive loop, an
+            # uninterpreted library function, a call-out), not behaviour of the code.  The obligation stays
+            # undischarged -- undecided -- but it is not reported as a violation.  (Obligations whose truth the
+            # concrete run does not evaluate -- loop invariants, call-out and frame conditions -- are not treated so.)
+            undecided.append({"name": v["obligation"],
+                              "reason": "the solver's counterexample %s does not reproduce: replayed on the real code every "
+                                        "clause holds (spurious under the contract's over-approximation); see %s"
+                                        % (json.dumps(rec.get("inputs"), default=repr)[:200], path)})
+            continue
         tail = "" if rec["found_input"] else " no-failing-input-found"
         lines.append("VIOLATION property=%s replay=%s obligation=%s%s" % (prop, path, v["obligation"], tail))
         vio_out.append(rec)
